@@ -6,6 +6,7 @@
 //@ file-needs: cz
 //@ file-inject: src/io/sys/unix/net/socket_write.rs
 //@ file-modpath: io::sys::net::socket_write
+//@ file-mirror: src/io/sys/unix/mod.rs :: if likely(is_coroutine) { match get_co_para() { None => Ok(()), Some(err) => Err(err), } } else {
 //@ file-property: C17
 use super::*;
 use crate::coroutine_impl::vk_support as sup;
